@@ -46,6 +46,13 @@ fn registry() -> Vec<Prop> {
         prop!("C04", c04),
         prop!("C05", c05),
         prop!("C06", c06),
+        prop!("C07", c07),
+        prop!("C08", c08),
+        prop!("C09", c09),
+        prop!("C10", c10, native),
+        prop!("C11", c11),
+        prop!("C12", c12, native_ints),
+        prop!("C13", c13, native),
         // REGISTRY-END
     ]
 }
